@@ -5,6 +5,8 @@ package directory
 import (
 	"errors"
 
+	"github.com/lugu/qiloop/bus"
+	"github.com/lugu/qiloop/bus/net"
 	"github.com/lugu/qiloop/internal/zzverif/sym"
 )
 
@@ -375,4 +377,70 @@ func C15UpdateVsUnregister() {
 	sym.Assert(err == nil, "update-race/name-not-free-after-unregister")
 	_ = errUpdate
 	sym.Reach("update-race-done")
+}
+
+// zzIdleListener: a listener nobody connects to (the local path of the hosting server needs no connection).
+type zzIdleListener struct{ closed chan struct{} }
+
+func (l *zzIdleListener) Accept() (net.Stream, error) {
+	<-l.closed
+	return nil, errors.New("listener closed")
+}
+func (l *zzIdleListener) Close() error {
+	select {
+	case <-l.closed:
+	default:
+		close(l.closed)
+	}
+	return nil
+}
+
+type zzNopActor struct{}
+
+func (zzNopActor) Receive(m *net.Message, from bus.Channel) error { return nil }
+func (zzNopActor) Activate(a bus.Activation) error                { return nil }
+func (zzNopActor) OnTerminate()                                   {}
+
+// C15LocalPath: the hosting server's own operations (Server.NewService = reserve + ready,
+// Service.Terminate = unregister) on a REAL server whose namespace is the directory, observed right
+// after each call returns (real-time order): a service is visible exactly from NewService's return
+// until Terminate's return, its name is free again afterwards, one added / one removed event.
+func C15LocalPath() {
+	d := serviceDirectoryImpl()
+	sig := &zzSignals{}
+	ns := d.Namespace("tcp://local")
+	srv, err := bus.NewServer(&zzIdleListener{closed: make(chan struct{})}, bus.Yes{}, ns, ServiceDirectoryObject(d))
+	sym.Assert(err == nil, "local/server-started")
+	if err != nil {
+		return
+	}
+	d.signal = sig // (the server activated the directory object with its own helper: observe through the harness one)
+	service, err := srv.NewService("svc", zzNopActor{})
+	sym.Assert(err == nil, "local/new-service")
+	if err != nil {
+		return
+	}
+	info, err := d.Service("svc")
+	sym.Assert(err == nil && info.ServiceId == service.ServiceID(), "local/not-visible-after-new-service")
+	sym.Assert(service.Terminate() == nil, "local/terminate")
+	_, err = d.Service("svc")
+	sym.Assert(err != nil, "local/visible-after-terminate-returned")
+	_, err = ns.Resolve("svc")
+	sym.Assert(err != nil, "local/resolvable-after-terminate-returned")
+	again, err := srv.NewService("svc", zzNopActor{})
+	sym.Assert(err == nil, "local/name-not-free-after-terminate-returned")
+	if err == nil {
+		sym.Assert(again.ServiceID() != service.ServiceID(), "local/id-reused")
+	}
+	sym.Quiesce()
+	added, removed := 0, 0
+	for _, e := range sig.log {
+		if e.added {
+			added++
+		} else {
+			removed++
+		}
+	}
+	sym.Assert(added == 2 && removed == 1, "local/events")
+	sym.Reach("local-path-done")
 }
